@@ -162,13 +162,16 @@ func UnmarshalWithChecksum(data []byte, src, dest net.IP) (*Header, error) {
 
 func (hdr *Header) UnmarshalWithChecksum(data []byte, src, dest net.IP) error {
 	err := hdr.Unmarshal(data)
+	if err != nil {
+		return err
+	}
 
 	checksum := csum(data, to4byte(src.String()), to4byte(dest.String()))
 	if checksum != hdr.Checksum {
 		return ErrInvalidChecksum
 	}
 
-	return err
+	return nil
 }
 
 func Parse(data []byte) (Header, error) {
@@ -183,6 +186,10 @@ func (hdr *Header) String() string {
 // why EOF on ubuntu with 22?
 // https://github.com/google/gopacket/blob/master/layers/tcp.go<Paste>
 func (hdr *Header) Unmarshal(data []byte) error {
+	if len(data) < 20 {
+		return fmt.Errorf("Invalid TCP header size: %d", len(data))
+	}
+
 	hdr.Source = binary.BigEndian.Uint16(data[0:2])
 	hdr.Destination = binary.BigEndian.Uint16(data[2:4])
 	hdr.SeqNum = binary.BigEndian.Uint32(data[4:8])
